@@ -33,6 +33,8 @@ const prelude = `(declare-sort Str 0)
 (declare-sort Unit 0)
 (declare-datatypes ((Iface 0)) (((iface_nil) (mk_iface (dyn Int) (pl Int)))))
 (declare-datatypes ((Slice 0)) (((mk_slice (sid Int) (soff Int) (slen Int)))))
+(declare-fun idx (Slice Int) Int)
+(assert (forall ((s Slice) (i Int)) (! (= (idx s i) (+ (soff s) i)) :pattern ((idx s i)))))
 (declare-fun implements (Int Int) Bool)
 (declare-fun strlen (Str) Int)
 (declare-const str_empty Str)
